@@ -235,6 +235,40 @@ def run_symlink(doc, fmt, base, absolute_target):
     return got, before, after, exc
 
 
+def run_updir(doc, fmt, base, absolute):
+    """the destination name climbs out of a directory that is a symbolic link: `work/latest/../out.x` with
+    `work/latest -> ../store/current` names `store/out.x` (the operating system follows the link before it goes up), not
+    `work/out.x`. Returns (bytes under the real destination, bytes under the lexically collapsed name, exception)"""
+    root = os.path.join(base, "updir")
+    shutil.rmtree(root, ignore_errors=True)
+    os.makedirs(os.path.join(root, "store", "current"))
+    os.makedirs(os.path.join(root, "work"))
+    os.symlink(os.path.join("..", "store", "current"), os.path.join(root, "work", "latest"))
+    name = os.path.join("work", "latest", "..", "out." + fmt)
+    if absolute:
+        name = os.path.join(root, name)
+    cwd = os.getcwd()
+    os.chdir(root)
+    exc = None
+    try:
+        try:
+            doc.serialize(name, format=fmt)
+        except Exception as e:  # noqa
+            exc = e
+        def rd(p_):
+            try:
+                with open(p_, "rb") as f:
+                    return f.read()
+            except OSError:
+                return None
+        real = rd(os.path.join(root, "store", "out." + fmt))
+        lexical = rd(os.path.join(root, "work", "out." + fmt))
+    finally:
+        os.chdir(cwd)
+        shutil.rmtree(root, ignore_errors=True)
+    return real, lexical, exc
+
+
 def run(ctx, use_model=True):
     g = Gen(ctx.seed * 1000003 + 17)
     fails = []
@@ -276,6 +310,18 @@ def run(ctx, use_model=True):
                     extra = [k for k in after if k not in before]
                     if extra:
                         fails.append(Failure("oracle", None, "written somewhere else: %r" % (extra,), case))
+                for absolute in (False, True):
+                    real, lexical, exc = run_updir(doc, fmt, base, absolute)
+                    ctx.evaluations += 1
+                    ctx.count("destination-climbs-out-of-a-symlinked-directory")
+                    case = {"name": "work/latest/../out.%s with work/latest -> ../store/current" % fmt, "format": fmt, "updir": True, "absolute": absolute}
+                    if exc is not None:
+                        fails.append(Failure("oracle", None, "writing to a name that climbs out of a symlinked directory raised %r" % (exc,), case))
+                    elif real is None or (fmt != "rdf" and real != expected_bytes):
+                        fails.append(Failure("oracle", None, "the named file (store/out.%s) does not hold the complete serialisation (%s)" % (
+                            fmt, "absent" if real is None else "%d bytes" % len(real)), case))
+                    if lexical is not None:
+                        fails.append(Failure("oracle", None, "written somewhere else: work/out.%s, the name with '..' collapsed as text" % fmt, case))
                 names = NAMES if ctx.tier == "thorough" else g.rng.sample(NAMES, 4)
                 for name in names:
                     for present in (False, True):
@@ -475,6 +521,13 @@ def replay(ctx, case):
     fails = []
     try:
         workdir, tmpdir = os.path.join(base, "work"), os.path.join(base, "tmp")
+        if case.get("updir"):
+            real, lexical, exc = run_updir(doc, case["format"], base, case.get("absolute", False))
+            if exc is not None or real is None:
+                fails.append(Failure("oracle", case.get("signature"), "the named file was not written (%r)" % (exc,), case))
+            if lexical is not None:
+                fails.append(Failure("oracle", case.get("signature"), "written under the name with '..' collapsed as text", case))
+            return fails
         if "serializer_fails" in case:
             bad = ProvDocument()
             bad.add_namespace("ex", "http://example.org/")
